@@ -153,13 +153,117 @@ def impl(case):
         return dict(out=out, oracle=[], tags=sorted(set(tags)))
     if kind == "ovr":
         return _impl_ovr(case)
+    if kind == "seq":
+        return _impl_seq(case)
     raise ValueError(kind)
 
 
-def _impl_ovr(case):
-    from pydantic import ValidationError
+def _const_candidates(fam, name, key, const):
+    """Explicit values an input document may carry in a constant field: the constant itself, the
+    other members of the typed (Literal) field of an ancestor that the constant pins (a sibling's
+    marker: valid for that ancestor), foreign / ill-typed values."""
+    cands = [const]
+    for anc in _ancestor_chain(fam, name):
+        ft = {f[0]: f[1] for f in G.eff_fields(fam, anc)}
+        if key in ft:
+            for x in _subterms(ft[key]):
+                if x[0] == "lit":
+                    cands += [v for v in x[1] if not any(type(v) is type(w) and v == w for w in cands)]
+            break
+    return cands + ["zz_foreign", "", 17, True, None, ["a"], {"a": 1}]
 
-    from metador_core.schema.core import MetadataSchema, check_types
+
+def _sprinkle_consts(rng, fam, ty, val, p=0.5):
+    """Put explicit values for constant fields into a generated input (at any nesting depth)."""
+    k = ty[0]
+    if k in ("opt", "ann"):
+        return val if val is None else _sprinkle_consts(rng, fam, ty[1], val, p)
+    if k == "list" and isinstance(val, list):
+        return [_sprinkle_consts(rng, fam, ty[1], x, p) for x in val]
+    if k == "union" and isinstance(val, dict):
+        ms = [t for t in ty[1] if t[0] == "model"]
+        return _sprinkle_consts(rng, fam, ms[-1], val, p) if ms else val
+    if k == "model" and isinstance(val, dict):
+        ft = {f[0]: f[1] for f in G.eff_fields(fam, ty[1])}
+        out = {kk: (_sprinkle_consts(rng, fam, ft[kk], v, p) if kk in ft else v) for kk, v in val.items()}
+        for ck, cv in G.eff_consts(fam, ty[1]):
+            if rng.random() < p:
+                out[ck] = rng.choice(_const_candidates(fam, ty[1], ck, cv))
+        return out
+    return val
+
+
+def gen_input(rng, fam, name, depth=2):
+    """A (mostly valid) input document for a family class; constant fields are left out, or carry
+    an explicit valid / foreign / ill-typed value."""
+    return _sprinkle_consts(rng, fam, ["model", name], G.gen_obj(rng, fam, name, depth))
+
+
+def _declared_by(fam, name):
+    """Fields whose incompatible override the class itself declared explicitly: @override(...), and
+    constants put over an inherited constant (`add_const_fields(..., override=True)`)."""
+    cd = G.get_cd(fam, name)
+    inherited = {k for k, _ in G.eff_consts(fam, cd["parent"])} if cd["parent"] else set()
+    return set(cd.get("overrides", [])) | {k for k, _ in cd["consts"] if k in inherited}
+
+
+def _class_oracle(F, fam, name, rng, n_inst, oracle, tags, root):
+    """Every generated instance the class accepts must be accepted, serialised, by each of its
+    ancestors; only the fields whose incompatible override was explicitly declared (by the class
+    itself or by a class between it and that ancestor) are exempt."""
+    chain = _ancestor_chain(fam, name)  # nearest first
+    if not chain:
+        return
+    child = F.classes[name]
+    tags.append("child-parent-checked")
+    if len(chain) > 1:
+        tags.append("child-grandparent-checked")
+    if not G.get_cd(fam, chain[0]).get("plugin") and any(G.get_cd(fam, a).get("plugin") for a in chain[1:]):
+        tags.append("unregistered-intermediate")
+    consts = [k for k, _ in G.eff_consts(fam, name)]
+    insts = []
+    for i in range(n_inst):
+        inp = gen_input(rng, fam, name, 2)
+        try:
+            o = child.parse_obj(json.loads(json.dumps(inp)))
+        except Exception:
+            continue
+        jd = o.json_dict()
+        if C12._has_nan(jd):
+            continue
+        if any(k in inp for k in consts):
+            tags.append("explicit-constant-input")
+            if any(k in inp and k in jd and inp[k] != jd[k] for k in consts):
+                tags.append("foreign-constant-input")
+        insts.append((inp, jd))
+    if insts:
+        tags.append("child-instances")
+    declared, below = set(), name
+    for anc in chain:
+        cdb = G.get_cd(fam, below)
+        if cdb.get("const_override"):
+            return  # explicitly declared replacement of a field by a constant
+        declared |= _declared_by(fam, below)
+        if declared:
+            tags.append("declared-override")
+        if cdb.get("mandatory"):
+            tags.append("below-make-mandatory" if below != name else "make-mandatory")
+        parent = F.classes[anc]
+        for inp, jd in insts:
+            try:
+                parent.parse_obj(json.loads(json.dumps(jd)))
+            except Exception as e:
+                bad = _bad_fields(e)
+                if bad and bad <= declared:
+                    continue  # only explicitly declared overrides are affected
+                oracle.append(dict(kind="child-instance-rejected-by-parent", child=name, parent=anc, input=inp, serialised=jd,
+                                   fields=sorted(bad), error=("%s: %s" % (type(e).__name__, e))[:300], fam=fam, root=root))
+                return
+        below = anc
+
+
+def _impl_ovr(case):
+    from metador_core.schema.core import check_types
 
     out, oracle, tags = [], [], []
     fam = case["fam"]
@@ -180,59 +284,88 @@ def _impl_ovr(case):
         if out[-1] == "check:ok":
             # oracle: every reachable class below a schema base accepts ... what its children produce
             rng = random.Random(case.get("seed", 0))
-            reach = _reachable(fam, case["root"])
-            for name in reach:
-                chain = _ancestor_chain(fam, name)  # nearest first
-                if not chain:
-                    continue
-                child = F.classes[name]
-                tags.append("child-parent-checked")
-                if len(chain) > 1:
-                    tags.append("child-grandparent-checked")
-                if not G.get_cd(fam, chain[0]).get("plugin") and any(G.get_cd(fam, a).get("plugin") for a in chain[1:]):
-                    tags.append("unregistered-intermediate")
-                insts = []
-                for i in range(case.get("n_inst", 12)):
-                    inp = G.gen_obj(rng, fam, name, 2)
-                    try:
-                        o = child.parse_obj(json.loads(json.dumps(inp)))
-                    except (ValidationError, Exception):
-                        continue
-                    jd = o.json_dict()
-                    if C12._has_nan(jd):
-                        continue
-                    insts.append((inp, jd))
-                if insts:
-                    tags.append("child-instances")
-                # every ancestor, nearest first; the fields whose incompatible override was explicitly
-                # declared (by the class itself or by a class between it and the ancestor) are exempt
-                declared, below, hit = set(), name, False
-                for anc in chain:
-                    cdb = G.get_cd(fam, below)
-                    if cdb.get("const_override"):
-                        break  # explicitly declared replacement of a field by a constant
-                    declared |= set(cdb.get("overrides", []))
-                    if declared:
-                        tags.append("declared-override")
-                    parent = F.classes[anc]
-                    for inp, jd in insts:
-                        try:
-                            parent.parse_obj(json.loads(json.dumps(jd)))
-                        except Exception as e:
-                            bad = _bad_fields(e)
-                            if bad and bad <= declared:
-                                continue  # only explicitly declared overrides are affected
-                            oracle.append(dict(kind="child-instance-rejected-by-parent", child=name, parent=anc, input=inp, serialised=jd,
-                                               fields=sorted(bad), error=("%s: %s" % (type(e).__name__, e))[:300], fam=fam, root=case["root"]))
-                            hit = True
-                            break
-                    if hit:
-                        break
-                    below = anc
-        # field level pairs (diagnostic tag only)
+            for name in _reachable(fam, case["root"]):
+                _class_oracle(F, fam, name, rng, case.get("n_inst", 12), oracle, tags, case["root"])
     finally:
         F.close()
     return dict(out=out, oracle=oracle[:5], tags=sorted(set(tags)))
+
+
+def _depth(fam, name):
+    return len(_ancestor_chain(fam, name))
+
+
+def _impl_seq(case):
+    """Plugin loads one after the other, as `PGSchema.check_plugin` does them: `check_types(cls)`
+    without `recheck`, on one set of classes, in the given order (parents before / after /
+    between their children, several children of one parent, repetitions). After every load that
+    passes (as long as nothing was refused before) the oracle looks at the loaded class and at
+    everything reachable from it. Then `inputs`: documents parsed by family classes, validated
+    value compared with the model (constant fields with explicit values among them)."""
+    from metador_core.schema.core import check_types
+
+    out, oracle, tags, pending = [], [], [], []
+    fam = case["fam"]
+    try:
+        F = G.Family(fam)
+    except (TypeError, ValueError) as e:
+        return dict(out=["new:%s" % type(e).__name__], oracle=[], tags=["construction-refused"], pending=[])
+    try:
+        out.append("new:ok")
+        rng = random.Random(case.get("seed", 0))
+        refused, examined, checked = [], set(), []
+        for name in case["loads"]:
+            cls = F.classes[name]
+            try:
+                check_types(cls)
+                out.append("check:ok")
+                ok = True
+            except (TypeError, ValueError) as e:
+                out.append("check:%s" % type(e).__name__)
+                ok = False
+                refused.append(name)
+                tags.append("load-refused")
+            if ok:
+                tags.append("load-ok")
+                anc = _ancestor_chain(fam, name)
+                if any(a in checked for a in anc):
+                    tags.append("load-after-ancestor")
+                if any(name in _ancestor_chain(fam, c) for c in checked):
+                    tags.append("load-after-descendant")
+                if any(c not in anc and c != name and set(_ancestor_chain(fam, c)) & set(anc) for c in checked):
+                    tags.append("load-after-sibling")
+                if name in checked:
+                    tags.append("load-repeated")
+                sink = oracle if not refused else pending
+                if refused:
+                    tags.append("load-ok-after-refusal")
+                for n in _reachable(fam, name):
+                    if (n, bool(refused)) in examined:
+                        continue
+                    examined.add((n, bool(refused)))
+                    k = len(sink)
+                    _class_oracle(F, fam, n, rng, case.get("n_inst", 8), sink, tags, name)
+                    for d in sink[k:]:
+                        d["loads"] = list(case["loads"])
+                        if refused:
+                            d["kind"] = "accepted-after-refusal"
+                            d["refused_before"] = list(refused)
+            checked.append(name)
+        for cname, inp in case.get("inputs", []):
+            try:
+                o = F.classes[cname].parse_obj(json.loads(json.dumps(inp)))
+            except Exception:
+                out.append("err")
+                tags.append("input-rejected")
+                continue
+            try:
+                out.append(G.pyval_str(o))
+                tags.append("input-accepted")
+            except ValueError:
+                out.append("*")
+    finally:
+        F.close()
+    return dict(out=out, oracle=oracle[:5], tags=sorted(set(tags)), pending=pending[:3])
 
 
 def pln_family(a, b):
@@ -421,6 +554,14 @@ def lines(case):
         return _nf(strs) + fam_lines(case["fam"]) + ["build"] + ["dec %s %s" % (G.ty_str(case["ty"]), G.json_str(v)) for v in case["values"]]
     if kind == "ovr":
         return fam_lines(case["fam"]) + ["build", "chk %s" % case["root"]]
+    if kind == "seq":
+        strs = G.strings_in([inp for _, inp in case.get("inputs", [])])
+        for cd in case["fam"]:
+            for f in cd["fields"]:
+                if f[2] is not None:
+                    G.strings_in(f[2]["v"], strs)
+        return (_nf(strs) + fam_lines(case["fam"]) + ["build"] + ["load %s" % n for n in case["loads"]]
+                + ["dec model(%s) %s" % (n, G.json_str(inp)) for n, inp in case.get("inputs", [])])
     return []
 
 
@@ -428,7 +569,29 @@ def compare(case, ir, mo):
     kind = case["kind"]
     if kind == "anc":
         return None
+    if kind == "pln":
+        return None
     nf = len(fam_lines(case["fam"]))
+    if kind == "seq":
+        nl, ni = len(case["loads"]), len(case.get("inputs", []))
+        mo = mo[len(mo) - (nl + ni + 1):]
+        build, a = mo[0], ir["out"]
+        if a[0] != "new:ok":
+            return "construction: impl=%s model=ok" % a[0] if build == "ok" else None
+        if build != "ok":
+            return "construction: impl=ok model=%s" % build
+        for i, n in enumerate(case["loads"]):
+            if a[1 + i] != mo[1 + i]:
+                return "load %d (%s after %s): check_types: impl=%s model=%s" % (i, n, ",".join(case["loads"][:i]) or "-", a[1 + i], mo[1 + i])
+        for i, (n, inp) in enumerate(case.get("inputs", [])):
+            x, y = a[1 + nl + i], mo[1 + nl + i]
+            if x == "*":
+                continue
+            if (x == "err") != y.startswith("err"):
+                return "input %d (%s %s): acceptance differs: impl=%r model=%r" % (i, n, json.dumps(inp)[:120], x[:120], y[:120])
+            if x != "err" and G.canon_term(x) != G.canon_term(y):
+                return "input %d (%s %s): validated value differs: impl=%r model=%r" % (i, n, json.dumps(inp)[:120], G.canon_term(x)[:200], G.canon_term(y)[:200])
+        return None
     if kind == "sub":
         mo = mo[nf + 1:]
         return core.default_compare(case, ir, mo)
@@ -880,6 +1043,278 @@ def gen_ovr_cases(ctx):
     return focused_ovr() + pol + chn + [rand_ovr_case(ctx.rng) for _ in range(n)]
 
 
+# ----------------------------------------------------------------------------- load sequences
+DISCRIMINATORS = [["lit", ["a", "b"]], ["lit", ["a", "b", "c"]], ["lit", [1, 2]], ["lit", ["a", 1]], ["lit", ["a"]],
+                  ["opt", ["lit", ["a", "b"]]], ["opt", ["lit", ["b", "c", 2]]]]
+
+
+def _lit_members(ty):
+    out = []
+    for x in _subterms(ty):
+        if x[0] == "lit":
+            out += [v for v in x[1] if not any(type(v) is type(w) and v == w for w in out)]
+    return out
+
+
+def _derive(rng, fam, name, parent, plugin_p=0.8):
+    """A class below `parent` using any of the ways a schema author has to change what is
+    inherited: re-annotate `f` (narrower / wider / same / unrelated; declared with @override or
+    not), @make_mandatory on it, re-annotate the Literal discriminator `k` or pin it with
+    @add_const_fields (a member of the inherited Literal, sometimes a foreign value), put another
+    constant over an inherited constant, add fields / constants, change the extra policy."""
+    cd = _cd(name, parent, plugin=rng.random() < plugin_p)
+    pf = {f[0]: f for f in G.eff_fields(fam, parent)}
+    pc = dict((k, v) for k, v in G.eff_consts(fam, parent))
+    forbid = G.eff_extra(fam, parent) == "forbid"
+    if "f" in pf:
+        cur, r = pf["f"][1], rng.random()
+        if r < 0.4:
+            ty = _reannotate(rng, cur, rng.choice(["narrow", "narrow", "narrow", "widen", "widen", "same", "random"]))
+            cd["fields"].append(["f", ty, None])
+            if rng.random() < 0.25:
+                cd["overrides"].append("f")
+        elif r < 0.6 and (G.is_nullable(cur) or rng.random() < 0.2):
+            cd["mandatory"].append("f")
+    if "g" in pf and rng.random() < 0.1:
+        if G.is_nullable(pf["g"][1]) and rng.random() < 0.5:
+            cd["mandatory"].append("g")
+        else:
+            cd["fields"].append(["g", _reannotate(rng, pf["g"][1], rng.choice(["narrow", "widen"])), None])
+    if "k" in pf:
+        kt, r = pf["k"][1], rng.random()
+        mem = _lit_members(kt)
+        if r < 0.35 and mem:
+            cd["consts"].append(["k", rng.choice(mem) if rng.random() < 0.85 else rng.choice(["zz", 7, "c", True])])
+        elif r < 0.5 and mem:
+            inner = G.unopt(kt)
+            if rng.random() < 0.6:
+                new = ["lit", [v for v in mem if rng.random() < 0.6] or [mem[0]]]
+            else:
+                new = ["lit", mem + [rng.choice([v for v in ["a", "b", "c", "d", 1, 2, 3] if v not in mem])]]
+            cd["fields"].append(["k", ["opt", new] if kt[0] == "opt" and rng.random() < 0.7 else new, None])
+            if rng.random() < 0.2:
+                cd["overrides"].append("k")
+        elif r < 0.56 and G.is_nullable(kt):
+            cd["mandatory"].append("k")
+    elif "k" in pc and rng.random() < 0.2:
+        # another constant over the inherited constant (needs override=True, which Family passes)
+        cd["consts"].append(["k", rng.choice(["a", "b", "c", 1, 2, "zz"])])
+    if rng.random() < (0.12 if forbid else 0.3):
+        cd["fields"].append(_new_field(rng, fam, "n%s" % name.lower()))
+    if rng.random() < (0.05 if forbid else 0.15):
+        cd["consts"].append(["@type", name])
+    if rng.random() < 0.15:
+        cd["extra"] = rng.choice(["allow", "ignore", "forbid"])
+    if rng.random() < 0.05:
+        cd["overrides"].append(rng.choice(["nonexistent", "g"]))
+    return cd
+
+
+def _load_orders(rng, fam, plugins):
+    """Orders in which the plugins of a family get loaded."""
+    by_depth = sorted(plugins, key=lambda n: (_depth(fam, n), n))
+    r = rng.random()
+    if r < 0.35:
+        loads = list(by_depth)  # every parent before its children
+    elif r < 0.5:
+        loads = list(reversed(by_depth))  # children first
+    elif r < 0.85:
+        loads = list(plugins)
+        rng.shuffle(loads)
+    else:
+        loads = [by_depth[-1]]  # only a leaf
+    if len(loads) > 2 and rng.random() < 0.3:
+        del loads[rng.randrange(len(loads))]
+    if rng.random() < 0.2:
+        loads.insert(rng.randrange(len(loads) + 1), rng.choice(plugins))  # something gets loaded twice
+    return loads
+
+
+def _seq_inputs(rng, fam, names, n):
+    """Documents for the model comparison of the validated value: classes with constants first."""
+    withc = [x for x in names if G.eff_consts(fam, x)]
+    out = []
+    for _ in range(n):
+        name = rng.choice(withc) if withc and rng.random() < 0.75 else rng.choice(names)
+        for _ in range(4):
+            inp = gen_input(rng, fam, name, 1)
+            if G.model_safe_json(inp):
+                out.append([name, inp])
+                break
+    return out
+
+
+def rand_seq_case(rng, n_inputs=3):
+    """A tree of 2-7 schema classes below one top class: a chain of 2-4 levels plus further
+    children of classes on the chain (several children of one parent), every class derived by
+    `_derive`; optionally a plugin that only uses a class as a nested schema. The plugins are
+    loaded in some order (`_load_orders`)."""
+    fam = base_table()
+    y = G.rand_field_type(rng, rng.randrange(0, 3), MODELS)
+    if rng.random() < 0.35:
+        y = ["opt", G.unopt(y)]
+    top = _cd("Ga", None, extra=rng.choice([None, None, None, "allow", "ignore", "forbid"]), plugin=rng.random() < 0.8,
+              fields=[["f", y, None], ["g", G.rand_field_type(rng, 1, MODELS), None]])
+    if rng.random() < 0.7:
+        top["fields"].append(["k", rng.choice(DISCRIMINATORS), None])
+    if rng.random() < 0.2:
+        top["consts"].append(["@type", "Top"])
+    fam.append(top)
+    chain = ["Ga"]
+    for name in ["Pa", "Pb", "Ch"][3 - rng.choice([1, 1, 2, 2, 3]):]:
+        fam.append(_derive(rng, fam, name, chain[-1]))
+        chain.append(name)
+    names = list(chain)
+    for name in ["Cb", "Cc", "Cd"][:rng.choice([0, 1, 1, 2, 3])]:
+        fam.append(_derive(rng, fam, name, rng.choice(names if rng.random() < 0.3 else chain)))
+        names.append(name)
+    if rng.random() < 0.2:
+        tgt = rng.choice(names[1:])
+        shape = rng.choice([["model", tgt], ["opt", ["model", tgt]], ["list", ["model", tgt]], ["opt", ["union", [["model", "Nd"], ["model", tgt]]]]])
+        fam.append(_cd("Us", None, fields=[["h", shape, None]], plugin=True))
+        names.append("Us")
+    plugins = [n for n in names if G.get_cd(fam, n).get("plugin")]
+    if not plugins:
+        G.get_cd(fam, names[-1])["plugin"] = True
+        plugins = [names[-1]]
+    return dict(kind="seq", fam=fam, loads=_load_orders(rng, fam, plugins), seed=rng.randrange(1 << 30), n_inst=8, inputs=_seq_inputs(rng, fam, names, n_inputs))
+
+
+def seq_family(specs, top_fields, extras=None):
+    """specs: [(name, parent, dict(f=(type, declared) | "mand" | None, k=..., const=value | None))]"""
+    fam = base_table()
+    fam.append(_cd("Ga", None, fields=[list(x) for x in top_fields], plugin=True, extra=(extras or {}).get("Ga")))
+    for name, parent, sp in specs:
+        cd = _cd(name, parent, plugin=sp.get("plugin", True), extra=(extras or {}).get(name))
+        for fld in ("f", "k"):
+            v = sp.get(fld)
+            if v == "mand":
+                cd["mandatory"].append(fld)
+            elif v:
+                cd["fields"].append([fld, v[0], None])
+                if v[1]:
+                    cd["overrides"].append(fld)
+        if "const" in sp:
+            cd["consts"].append(["k", sp["const"]])
+        fam.append(cd)
+    return fam
+
+
+def _perms(names, limit=24):
+    return [list(p) for p in itertools.islice(itertools.permutations(names), limit)]
+
+
+SEQ_F_TYPES = [["int"], ["opt", ["int"]], ["union", [["int"], ["str"]]]]
+SEQ_DOCS = [{"f": 1}, {"f": 1, "k": "a"}, {"f": 1, "k": "b"}, {"f": 1, "k": "zz_foreign"}, {"f": 1, "k": 17}, {"f": 1, "k": None}, {"k": "a"}, {}]
+
+
+def seq_space():
+    """Small scope, complete: Ga (f: y, k: Literal[a, b]) <- Pa <- Ch, and a second child Cb of Pa;
+    each of Pa, Ch, Cb does one thing - nothing, re-annotates f (each type of SEQ_F_TYPES,
+    undeclared; Optional[int] also declared), @make_mandatory(f), pins k with a constant (member /
+    foreign), narrows or widens k - and the plugins are loaded in every order of three of the four
+    classes and of all four. Every family comes with the documents SEQ_DOCS for Ch."""
+    K = ["lit", ["a", "b"]]
+    acts = [dict()] + [dict(f=(t, False)) for t in SEQ_F_TYPES] + [dict(f=(["opt", ["int"]], True)), dict(f="mand"), dict(const="a"), dict(const="zz"),
+                                                                    dict(k=(["lit", ["a"]], False)), dict(k=(["lit", ["a", "b", "c"]], False))]
+    out = []
+    for y in SEQ_F_TYPES[:2]:
+        for a_pa in acts:
+            for a_ch in acts:
+                if "const" in a_pa and ("k" in a_ch):
+                    continue  # a field named like an inherited constant: refused at construction, covered by rand
+                for a_cb in (dict(), dict(f=(["opt", ["int"]], False)), dict(const="b")):
+                    if "const" in a_pa and ("k" in a_cb):
+                        continue
+                    fam = seq_family([("Pa", "Ga", a_pa), ("Ch", "Pa", a_ch), ("Cb", "Pa", a_cb)], [["f", y, None], ["k", K, None]])
+                    orders = [["Ga", "Pa", "Ch", "Cb"], ["Ch", "Cb", "Pa", "Ga"], ["Pa", "Ch", "Cb"], ["Pa", "Cb", "Ch"], ["Ch", "Pa", "Cb"], ["Ga", "Ch"], ["Ga", "Cb", "Ch"], ["Cb", "Ch"], ["Ch"], ["Pa", "Pa", "Ch"]]
+                    for loads in orders:
+                        out.append(dict(kind="seq", fam=fam, loads=loads, seed=17, n_inst=6, inputs=[["Ch", d] for d in SEQ_DOCS[:4]]))
+    return out
+
+
+def focused_seq():
+    I, S, O = ["int"], ["str"], lambda t: ["opt", t]
+    K = ["lit", ["a", "b"]]
+    out = []
+
+    def case(fam, loads, inputs=(), n_inst=8):
+        out.append(dict(kind="seq", fam=fam, loads=list(loads), seed=23, n_inst=n_inst, inputs=[list(x) for x in inputs]))
+
+    # an undeclared widening in a child, the parent loaded before / after / not at all; in a second child
+    for wid in (O(I), ["union", [I, S]]):
+        fam = seq_family([("Ch", "Ga", dict(f=(wid, False))), ("Cb", "Ga", dict(f=(wid, False)))], [["f", I, None]])
+        for loads in (["Ga", "Ch"], ["Ch", "Ga"], ["Ch"], ["Ga", "Cb", "Ch"], ["Ga", "Ga", "Cb"]):
+            case(fam, loads)
+        fam = seq_family([("Pa", "Ga", dict()), ("Ch", "Pa", dict(f=(wid, False))), ("Cb", "Pa", dict(f=(I, False)))], [["f", I, None]])
+        for loads in _perms(["Ga", "Pa", "Ch"], 6) + [["Pa", "Cb", "Ch"], ["Cb", "Ch"], ["Ga", "Ch"]]:
+            case(fam, loads)
+        fam = seq_family([("Pa", "Ga", dict(plugin=False)), ("Pb", "Pa", dict(f=(I, False))), ("Ch", "Pb", dict(f=(wid, False)))], [["f", I, None]])
+        for loads in (["Ga", "Pb", "Ch"], ["Pb", "Ch"], ["Ch", "Pb"], ["Ga", "Ch"]):
+            case(fam, loads)
+    # @make_mandatory at every level of 2-4 level chains; a descendant loosens the field again
+    for depth in (1, 2, 3):
+        for at in range(depth):
+            for last in (None, (O(I), False), (O(I), True), (I, False), "mand"):
+                names = ["Pa", "Pb", "Pc"][:depth]
+                specs, prev = [], "Ga"
+                for i, nm in enumerate(names):
+                    specs.append((nm, prev, dict(f="mand") if i == at else dict()))
+                    prev = nm
+                specs.append(("Ch", prev, dict(f=last) if last else dict()))
+                fam = seq_family(specs, [["f", O(I), None], ["y", S, None]])
+                case(fam, ["Ch"], [["Ch", {"y": "a"}], ["Ch", {"y": "a", "f": 1}]])
+                case(fam, ["Ga"] + names + ["Ch"])
+    # a Literal discriminator pinned by a constant at every level, documents that carry the field
+    docs = [{"f": 1}, {"f": 2, "k": "a"}, {"f": 3, "k": "b"}, {"f": 4, "k": "triangle"}, {"f": 5, "k": 17}, {"f": 6, "k": None}, {"f": 7, "k": ["a"]}]
+    for kt in (K, O(K), ["lit", ["a", 1]], ["ann", K]):
+        for depth in (1, 2, 3):
+            for at in range(depth):
+                names = ["Pa", "Pb", "Ch"][3 - depth:]
+                specs, prev = [], "Ga"
+                for i, nm in enumerate(names):
+                    specs.append((nm, prev, dict(const="a") if i == at else dict()))
+                    prev = nm
+                fam = seq_family(specs, [["f", I, None], ["k", kt, None]])
+                case(fam, [names[-1]], [[names[-1], d] for d in docs] + [[names[at], d] for d in docs[3:5]])
+    fam = seq_family([("Pa", "Ga", dict(const="a")), ("Ch", "Pa", dict(const="b")), ("Cb", "Pa", dict())], [["f", I, None], ["k", K, None]])
+    case(fam, ["Ga", "Pa", "Ch", "Cb"], [["Ch", d] for d in docs] + [["Cb", d] for d in docs[:4]])
+    fam = seq_family([("Pa", "Ga", dict(k=(["lit", ["a"]], False))), ("Ch", "Pa", dict(const="a"))], [["f", I, None], ["k", ["lit", ["a", "b", "c"]], None]])
+    case(fam, ["Pa", "Ch"], [["Ch", d] for d in docs])
+    fam = seq_family([("Ch", "Ga", dict(const="a"))], [["f", I, None], ["k", K, None]])
+    fam.append(_cd("Us", None, fields=[["h", ["list", ["model", "Ch"]], None]], plugin=True))
+    case(fam, ["Us"], [["Us", {"h": [d]}] for d in docs[:5]])
+    return out
+
+
+def pending_probes():
+    """Deterministic probes for behaviour of the unchanged code that was reported as a candidate
+    finding and is not (yet) listed in known_findings.json: their outcome goes to the notes."""
+    I = ["int"]
+    out = []
+    # (1) scalar constant over a List / Set of Literals
+    for kt in (["list", ["lit", ["a", "b"]]], ["set", ["lit", ["a", "b"]]], ["opt", ["list", ["lit", ["a", "b"]]]]):
+        fam = seq_family([("Ch", "Ga", dict(const="a"))], [["f", I, None], ["k", kt, None]])
+        out.append(dict(kind="seq", fam=fam, loads=["Ch"], seed=29, n_inst=4, inputs=[], probe="const-over-container-literal"))
+    # (2) a refused class is let through by the next check (the mark survives the refusal)
+    fam = seq_family([("Ch", "Ga", dict(f=(["opt", I], False))), ("Le", "Ch", dict())], [["f", I, None]])
+    for loads in (["Ch", "Ch"], ["Ch", "Le"]):
+        out.append(dict(kind="seq", fam=fam, loads=loads, seed=29, n_inst=4, inputs=[], probe="accepted-after-refusal"))
+    return out
+
+
+def gen_seq_cases(ctx):
+    spc = seq_space()
+    if ctx.quick:
+        spc = ctx.rng.sample(spc, 150)
+        n = 160
+    else:
+        ctx.exhaustive_spaces.append("load orders: Ga(f:y, k:Literal[a,b]) <- Pa <- {Ch, Cb}; each class does one of: nothing / re-annotate f (3 types, undeclared; Optional declared) / "
+                                     "@make_mandatory(f) / pin k by a constant (member, foreign) / narrow or widen k; 10 load orders each: %d cases" % len(spc))
+        n = 3000
+    return focused_seq() + spc + [rand_seq_case(ctx.rng) for _ in range(n)]
+
+
 PLAIN_OF = {"str": "pstr", "int": "pint", "float": "pfloat", "bool": "pbool"}
 
 
@@ -984,6 +1419,10 @@ def run(ctx):
     ctx.correspond("accepts", MOD, acc, lines, "drv_cod", compare=compare, timeout=120)
     ovr = [c for c in corpus if c["kind"] == "ovr"] + gen_ovr_cases(ctx)
     ctx.correspond("check_types", MOD, ovr, lines, "drv_cod", compare=compare, timeout=120)
+    seq = [c for c in corpus if c["kind"] == "seq"] + gen_seq_cases(ctx)
+    C12.ensure_nf(ctx, seq, report=False)
+    ctx.correspond("load-order", MOD, seq, lines, "drv_cod", compare=compare, timeout=120)
+    run_pending_probes(ctx)
     pln = [c for c in corpus if c["kind"] == "pln"] + gen_pln_cases(ctx)
     n_pln = 0
     for c, r in zip(pln, pool.run(MOD, "impl", pln, timeout=300)):
@@ -1013,6 +1452,43 @@ def run(ctx):
         ctx.note_case(c, r["ok"]["tags"], c.get("n", 1))
     ctx.notes.append("installed schemas: %d (instance, ancestor) parses" % n_anc)
     prioritise_hits(ctx)
+
+
+PENDING = {
+    "C13:const-over-container-literal": "@add_const_fields puts a scalar constant over an inherited List[Literal[...]] / Set[Literal[...]] field (decorators.py tests `field_def.type_`, "
+                                        "the item type): class construction and check_types pass, the child dumps the scalar, the parent rejects it ('value is not a valid list')",
+    "C13:accepted-after-refusal": "check_types sets `__types_checked__` before it examines a class and leaves it set when the examination raises (core.py:369-371): the class that was "
+                                  "refused, and every class below it, passes the next check_types unexamined",
+}
+
+
+def run_pending_probes(ctx):
+    """Candidate findings on the unchanged code that are not (yet) in known_findings.json: always
+    probed with fixed inputs, outcome reported as a note, never as a violation. A hit with one of
+    these signatures that comes out of the generators is moved to the notes as well."""
+    probes = pending_probes()
+    seen = {}
+    for c, r in zip(probes, pool.run(MOD, "impl", probes, timeout=120)):
+        if "ok" not in r:
+            raise lean.InfraError("pending probe failed: %s" % (core.canon(r)[:300],))
+        for d in r["ok"]["oracle"] + r["ok"].get("pending", []):
+            seen.setdefault(signature(c, d), (c, d))
+        ctx.note_case(c, r["ok"]["tags"] + ["pending-probe"], len(c["loads"]))
+    keep = []
+    for h in ctx.oracle_hits:
+        sig = signature(h["case"], h["detail"])
+        if sig in PENDING:
+            seen.setdefault(sig, (h["case"], h["detail"]))
+        else:
+            keep.append(h)
+    ctx.oracle_hits[:] = keep
+    for sig in sorted(PENDING):
+        if sig in seen:
+            c, d = seen[sig]
+            ctx.notes.append("candidate finding, reported, not counted (%s): %s; e.g. loads=%s child=%s parent=%s input=%s serialised=%s" % (
+                sig, PENDING[sig], ",".join(c.get("loads", [])), d.get("child"), d.get("parent"), json.dumps(d.get("input"))[:80], json.dumps(d.get("serialised"))[:80]))
+        else:
+            ctx.notes.append("candidate finding no longer observed (%s)" % sig)
 
 
 def prioritise_hits(ctx, budget=30):
@@ -1120,6 +1596,8 @@ def signature(case, detail):
         if _is_f12(a, b):
             return F12_SIG
         return "%s:subtype-unsound:%s<%s" % (ID, G.ty_str(a), G.ty_str(b))
+    if kind == "accepted-after-refusal":
+        return "C13:accepted-after-refusal"
     if kind == "child-instance-rejected-by-parent":
         fam = detail.get("fam") or case.get("fam")
         ch, pa = detail.get("child"), detail.get("parent")
@@ -1133,6 +1611,15 @@ def signature(case, detail):
                 return CONST_FORBID_SIG
             if flds and all(k in ft_c and k not in ft_p and k not in consts_p for k in flds) and G.eff_extra(fam, pa) == "forbid":
                 return NEW_FIELD_FORBID_SIG
+            if flds and all(k in consts_c for k in flds) and any(k in ft_p for k in flds):
+                # a constant of the child sits where the ancestor has a typed field
+                b = ft_p[[k for k in flds if k in ft_p][0]]
+                inner = b
+                while inner[0] in ("opt", "ann"):
+                    inner = inner[1]
+                if inner[0] in ("list", "set"):
+                    return "C13:const-over-container-literal"
+                return "%s:constant-field-rejected-by-parent:%s" % (ID, G.ty_str(b))
             if len(flds) == 1 and flds[0] in ft_c and flds[0] in ft_p:
                 a, b = ft_c[flds[0]], ft_p[flds[0]]
                 if _is_f12(a, b):
@@ -1177,7 +1664,7 @@ def shrink(ctx, case, detail):
             best = min(r["ok"]["oracle"], key=lambda d: len(json.dumps([d["sub"], d["base"]])))
             return dict(kind="pln", pairs=[[best["sub"], best["base"]]], seed=case.get("seed", 0)), best
         return dict(case, pairs=[[a, b]]), detail
-    if kind == "child-instance-rejected-by-parent":
+    if kind in ("child-instance-rejected-by-parent", "accepted-after-refusal"):
         r = pool.run_one(MOD, "shrink_ovr", dict(case=case, detail=detail), timeout=600)
         if "ok" in r and r["ok"]:
             return r["ok"]["case"], r["ok"]["detail"]
@@ -1190,37 +1677,52 @@ def shrink(ctx, case, detail):
 
 
 def shrink_ovr(req):
-    """Inside a worker: drop fields / constants / classes of the family while the same kind
-    of witness is still produced."""
+    """Inside a worker: drop loads / documents / classes / fields / constants / decorators of the
+    family while the same kind of witness is still produced."""
     case, detail = req["case"], req["detail"]
-    budget = [150]
+    budget = [200]
 
     def fails(c):
         budget[0] -= 1
         try:
-            r = _impl_ovr(c)
+            r = impl(c)
         except Exception:
             return None
-        ds = [d for d in r["oracle"] if d.get("kind") == detail["kind"]]
+        ds = [d for d in r["oracle"] + r.get("pending", []) if d.get("kind") == detail["kind"]]
         return ds[0] if ds else None
 
     cur = dict(case)
     det = fails(cur)
     if not det:
         return None
-    # drop unused classes (from the end), then fields and constants
+    seq = cur.get("kind") == "seq"
+    if seq and cur.get("inputs"):
+        c = dict(cur, inputs=[])
+        d = fails(c)
+        if d:
+            cur, det = c, d
+    # drop unused classes (from the end), then loads, then fields and constants
     i = len(cur["fam"]) - 1
     while i >= 0 and budget[0] > 0:
-        if cur["fam"][i]["name"] != cur["root"]:
+        nm = cur["fam"][i]["name"]
+        if nm != cur.get("root"):
             c = dict(cur, fam=[cd for k, cd in enumerate(cur["fam"]) if k != i])
-            try:
-                d = fails(c)
-            except Exception:
-                d = None
+            if seq:
+                c["loads"] = [x for x in cur["loads"] if x != nm]
+            d = fails(c) if (not seq or c["loads"]) else None
             if d:
                 cur, det = c, d
         i -= 1
-    if cur["root"] != det["child"]:
+    if seq:
+        j = 0
+        while j < len(cur["loads"]) and len(cur["loads"]) > 1 and budget[0] > 0:
+            c = dict(cur, loads=cur["loads"][:j] + cur["loads"][j + 1:])
+            d = fails(c)
+            if d:
+                cur, det = c, d
+            else:
+                j += 1
+    elif cur["root"] != det["child"]:
         c = dict(cur, root=det["child"])
         d = fails(c)
         if d:
@@ -1232,14 +1734,18 @@ def shrink_ovr(req):
                 fam2 = json.loads(json.dumps(cur["fam"]))
                 del fam2[ci][part][j]
                 c = dict(cur, fam=fam2)
-                try:
-                    d = fails(c)
-                except Exception:
-                    d = None
+                d = fails(c)
                 if d:
                     cur, det = c, d
                 else:
                     j += 1
+        if cur["fam"][ci].get("extra") and budget[0] > 0:
+            fam2 = json.loads(json.dumps(cur["fam"]))
+            fam2[ci]["extra"] = None
+            c = dict(cur, fam=fam2)
+            d = fails(c)
+            if d:
+                cur, det = c, d
     return dict(case=cur, detail=det)
 
 
@@ -1263,7 +1769,7 @@ def shrink_anc(req):
 def search(ctx):
     for s in range(1, 3):
         sub = core.Ctx(ID, "quick", ctx.seed + 7919 * s)
-        cases = gen_sub_cases(sub) + gen_ovr_cases(sub) + gen_pln_cases(sub)
+        cases = gen_seq_cases(sub) + gen_ovr_cases(sub) + gen_sub_cases(sub) + gen_pln_cases(sub)
         res = pool.run(MOD, "impl", cases, timeout=300)
         ctx.search_log.append("seed %d: %d cases (subtype pairs with witness search, override families), oracle only" % (sub.seed, len(cases)))
         known = {k.get("signature") for k in core.load_findings() if k.get("kind") == "known"}
@@ -1283,6 +1789,9 @@ def replay(ctx, rep):
         return 0
     r = pool.run_one(MOD, "impl", case, timeout=300)
     print("implementation:", core.canon(r)[:4000])
+    for d in (r.get("ok") or {}).get("oracle", []):
+        print("witness: loads=%s child=%s parent=%s fields=%s input=%s serialised=%s\n  %s" % (",".join(case.get("loads", [])) or "-", d.get("child"), d.get("parent"), d.get("fields"),
+                                                                                         json.dumps(d.get("input")), json.dumps(d.get("serialised")), d.get("error")))
     if case.get("kind") not in ("anc", "pln"):
         C12.load_nf(ctx)
         print("model:", lean.run_driver("drv_cod", [lines(case)]))
